@@ -166,3 +166,113 @@ def compare(got, want):
             d = list(difflib.unified_diff(a, b, "expected:" + k, "current:" + k, lineterm="", n=1))
             diffs.append("\n".join(d[:60]))
     return diffs
+
+
+# ---------------------------------------------------------------------------------------------
+# name-based variant for the SSA slice tables (pbl_model, Kormann-Meixner, wind, geo): the right-hand
+# side of every assignment to a name that some slice translates or inlines is elided (it is covered by a
+# bridge lemma through SSA substitution); every other statement — in particular in-place updates,
+# augmented assignments, new names, new branches, early returns — is pinned.
+
+
+def _base_name(t):
+    while isinstance(t, (ast.Subscript, ast.Attribute)):
+        t = t.value
+    return t.id if isinstance(t, ast.Name) else None
+
+
+def names_function_skeleton(fn, names):
+    lines = ["def %s(%s)%s" % (fn.name, ast.unparse(fn.args), "".join(" @" + ast.unparse(d) for d in fn.decorator_list))]
+
+    def visit(stmts, depth):
+        ind = "  " * depth
+        for st in stmts:
+            if _is_doc(st) or _is_logging(st):
+                continue
+            if isinstance(st, ast.Assign):
+                tg = " = ".join(ast.unparse(t) for t in st.targets)
+                bases = set()
+                for t in st.targets:
+                    for e in (t.elts if isinstance(t, ast.Tuple) else [t]):
+                        bases.add(_base_name(e))
+                if bases and bases <= names:
+                    lines.append("%s%s = <bridged>" % (ind, tg))
+                else:
+                    lines.append("%s%s = %s" % (ind, tg, ast.unparse(st.value)))
+            elif isinstance(st, ast.If):
+                lines.append("%sif %s:" % (ind, ast.unparse(st.test)))
+                visit(st.body, depth + 1)
+                if st.orelse:
+                    lines.append("%selse:" % ind)
+                    visit(st.orelse, depth + 1)
+            elif isinstance(st, (ast.For, ast.While)):
+                head = "for %s in %s:" % (ast.unparse(st.target), ast.unparse(st.iter)) if isinstance(st, ast.For) else "while %s:" % ast.unparse(st.test)
+                lines.append(ind + head)
+                visit(st.body, depth + 1)
+                if st.orelse:
+                    lines.append("%selse:" % ind)
+                    visit(st.orelse, depth + 1)
+            elif isinstance(st, (ast.With, ast.Try)):
+                lines.append(ind + type(st).__name__.lower() + ":")
+                visit(st.body, depth + 1)
+                for h in getattr(st, "handlers", []):
+                    lines.append("%sexcept %s:" % (ind, ast.unparse(h.type) if h.type else ""))
+                    visit(h.body, depth + 1)
+                for extra in ("orelse", "finalbody"):
+                    if getattr(st, extra, None):
+                        lines.append("%s%s:" % (ind, extra))
+                        visit(getattr(st, extra), depth + 1)
+            elif isinstance(st, ast.Return) and st.value is not None and "return" in names:
+                lines.append("%sreturn <bridged>" % ind)
+            else:
+                lines.append(ind + ast.unparse(st))
+
+    visit(fn.body, 1)
+    return lines
+
+
+def names_skeleton(path, funcs, names):
+    tree = ast.parse(open(path).read())
+    out = {}
+    for f in funcs:
+        fn = py2coq.find_function(tree, f)
+        out[f] = names_function_skeleton(fn, set(names.get(f, names.get("*", set())) if isinstance(names, dict) else names))
+    return out
+
+
+SKELDIR = os.path.join(os.path.dirname(os.path.abspath(__file__)), "skeletons")
+
+
+def check_names(ctx, label, path, funcs, names):
+    """obligation structure:<label>-skeleton: statements of `funcs` other than the bridged right-hand sides equal the
+    committed expectation harness/skeletons/<label>.json"""
+    exp = os.path.join(SKELDIR, label + ".json")
+    try:
+        got = names_skeleton(path, funcs, names)
+    except Exception as e:
+        ctx.obligation("structure:%s-skeleton" % label, False, "skeleton extraction failed: %s" % e)
+        return False
+    if os.environ.get("VERIF_UPDATE_SKELETONS") == "1":
+        os.makedirs(SKELDIR, exist_ok=True)
+        json.dump(got, open(exp, "w"), indent=1)
+    want = json.load(open(exp))
+    diffs = compare(got, want)
+    ctx.obligation("structure:%s-skeleton" % label, not diffs,
+                   "" if not diffs else "statements of %s differ from the ones the model describes (bridged right-hand sides excluded):\n%s" % (os.path.basename(path), "\n".join(diffs)[:1400]))
+    return not diffs
+
+
+def slice_names(slices, func=None):
+    """per function: names some slice translates or inlines"""
+    out = {}
+    for sl in slices:
+        f = sl["func"]
+        s = out.setdefault(f, set())
+        t = sl.get("target")
+        if t and sl.get("kind") not in ("iftest", "cond") or (t and sl.get("kind") == "cond" and re.match(r"^[A-Za-z_]\w*$", t)):
+            m = re.match(r"^([A-Za-z_]\w*)", t)
+            if m:
+                s.add(m.group(1))
+        for nm in sl.get("inline", []) or []:
+            s.add(nm)
+    return out
